@@ -14,6 +14,7 @@ import gffutils
 import argparse
 from traceback import print_exc
 import gzip
+import shutil
 
 logger = logging.getLogger('IsoQuant')
 
@@ -142,9 +143,19 @@ def gtf2db(gtf, db, complete_db=False, check_gtf=True):
     # another run may be working with the database that has this name (found through the cache of converted annotations):
     # the new one is built aside and takes the name when it is complete, the other run keeps the file it has opened
     unfinished_db = "%s.%d.tmp" % (db, os.getpid())
-    gffutils.create_db(gtf, unfinished_db, force=True, keep_order=True, merge_strategy='error',
-                       sort_attribute_values=True, disable_infer_transcripts=complete_db,
-                       disable_infer_genes=complete_db)
+    gtf_to_convert = gtf
+    if os.path.splitext(gtf)[1].lower() in ['.gz', '.gzip', '.bgz'] and not gtf.endswith('.gz'):
+        # gffutils decompresses only files whose names end with ".gz"
+        gtf_to_convert = "%s.%d.tmp.gtf" % (db, os.getpid())
+        with gzip.open(gtf, "rb") as compressed_gtf, open(gtf_to_convert, "wb") as plain_gtf:
+            shutil.copyfileobj(compressed_gtf, plain_gtf)
+    try:
+        gffutils.create_db(gtf_to_convert, unfinished_db, force=True, keep_order=True, merge_strategy='error',
+                           sort_attribute_values=True, disable_infer_transcripts=complete_db,
+                           disable_infer_genes=complete_db)
+    finally:
+        if gtf_to_convert != gtf and os.path.exists(gtf_to_convert):
+            os.remove(gtf_to_convert)
     os.replace(unfinished_db, db)
     logger.info("Gene database written to " + db)
     logger.info("Provide this database next time to avoid excessive conversion")
